@@ -101,6 +101,10 @@ def build_beam(b, wrt=None, theta=None):
         what = wrt[1]
         idx = tuple(wrt[2:]) if len(wrt) > 2 else None
         parts[what] = _inject(parts[what].tolist(), idx, theta)
+    if b["type"] == "particle" and b.get("from_si"):
+        # `particles` holds SI coordinates (x, px, y, py, z, pz, 1): the beam is made by the documented constructor for them
+        return cheetah.ParticleBeam.from_xyz_pxpypz(parts["particles"], parts["energy"], particle_charges=_t(b["charges"]),
+                                                    survival_probabilities=_t(b["survival"]), dtype=D)
     if b["type"] == "particle":
         return cheetah.ParticleBeam(parts["particles"], parts["energy"], particle_charges=_t(b["charges"]),
                                     survival_probabilities=_t(b["survival"]), dtype=D)
@@ -126,6 +130,8 @@ def theta0(case):
 def param_scale(case):
     w = case["wrt"]
     if w[0] == "beam":
+        if case["beam"].get("from_si") and w[1] == "particles" and w[3] in (1, 3, 5):
+            return abs(theta0(case)), 1e-3           # SI momenta (kg m/s): the natural scale is the value itself
         return BEAM_SCALE[w[1]], (1e-4 if w[1] == "energy" else 1e-2)
     cls = case["lattice"][w[1]]["cls"]
     for (p, idx, sc, hr) in PARAMS[cls]:
@@ -700,6 +706,156 @@ def gen_fringe_exit_cases(rng):
     return cases
 
 
+# ---------------------------------------------------------------------------------------------------------------------
+# constructor arguments that feed OTHER stored quantities: a parameter whose default is derived from another argument
+# (Dipole: gap_exit <- gap, fringe_integral_exit <- fringe_integral) or a stored quantity computed from several arguments
+# (RBend: dipole_e1/2 = rbend_e1/2 + angle/2).  The pairs are DISCOVERED on the live classes (which buffers move when the source
+# argument moves, with each optional argument in turn left at its default), not listed; every discovered pair is then tracked
+# w.r.t. the source argument for every tracking method x beam type x every combination of the class's Literal flags (fringe_at),
+# with the derived argument left at its DEFAULT and, as a control, given explicitly (then also differentiated w.r.t. it).
+# ---------------------------------------------------------------------------------------------------------------------
+def ctor_info(cls_name):
+    """(optional tensor parameters of the constructor [default None], {flag: choices} for Literal parameters with several values
+    other than tracking_method)"""
+    import inspect
+    import typing
+    import cheetah
+    optional, flags = [], {}
+    for p in inspect.signature(getattr(cheetah, cls_name).__init__).parameters.values():
+        if p.name in ("self", "name", "device", "dtype", "tracking_method"):
+            continue
+        lit = None
+        for a in [p.annotation] + list(typing.get_args(p.annotation) or ()):
+            if typing.get_origin(a) is typing.Literal:
+                lit = list(typing.get_args(a))
+        if lit is not None:
+            if len(lit) > 1:
+                flags[p.name] = lit
+        elif p.default is None and p.name in TENSOR_KW:
+            optional.append(p.name)
+    return optional, flags
+
+
+def live_kw(rng, cls, method):
+    """keyword arguments with EVERY continuous scalar parameter given and non-zero (so that every stored quantity matters)"""
+    kw = dict(gen_kw(rng, cls, method, False))
+    alt = {"gap": [0.02, 0.035], "gap_exit": [0.03, 0.025], "fringe_integral": [0.5, 0.3], "fringe_integral_exit": [0.4, 0.45],
+           "angle": [0.1, -0.3, 0.05], "dipole_e1": [0.05, -0.1], "dipole_e2": [0.05, -0.1], "rbend_e1": [0.05, -0.1], "rbend_e2": [0.05, -0.1]}
+    for (p, idx, sc, hr) in PARAMS[cls]:
+        if idx is not None:
+            continue
+        if p not in kw or kw[p] is None or float(kw[p]) == 0.0:
+            kw[p] = rng.choice(alt[p]) if p in alt else round(sc * rng.choice([0.5, 0.3, -0.4]), 9) if p not in ("length", "frequency") else sc
+    return kw
+
+
+def discover_derived(rng):
+    """[(class, source argument, omitted argument or None, [stored buffers that move with the source])], found by constructing the
+    real classes: with each optional argument in turn left at its default (None: none omitted), which registered buffers other than
+    the source's own change value when the source argument changes.  Value-level (no autograd involved)."""
+    found = []
+    for cls in PARAMS:
+        method = methods_of(cls)[0]
+        kw = live_kw(rng, cls, method)
+        optional, _ = ctor_info(cls)
+        sources = [p for (p, idx, sc, hr) in PARAMS[cls] if idx is None]
+
+        def moved(kw_, src):
+            # remove_duplicate=False: a default that registers the SAME tensor under a second name is a derived quantity too
+            a = dict(build_elem({"cls": cls, "kw": kw_}).named_buffers(remove_duplicate=False))
+            kw2 = dict(kw_)
+            kw2[src] = float(kw_[src]) * 1.25 + 0.0625
+            b = dict(build_elem({"cls": cls, "kw": kw2}).named_buffers(remove_duplicate=False))
+            out = sorted(n for n in a if n != src and (a[n].shape != b[n].shape or not torch.equal(a[n], b[n])))
+            # with nothing omitted, a buffer that simply holds the argument's value is where the argument is stored (a property
+            # alias such as dipole_e1 -> _e1), not a derived quantity
+            alias = [n for n in out if b[n].shape == torch.Size([]) and float(b[n]) == float(kw2[src])]
+            return out, alias
+        base = {}
+        for src in sources:
+            r, exc = _try(lambda: moved(kw, src))
+            base[src], alias = r or ([], [])
+            if [n for n in base[src] if n not in alias]:
+                found.append((cls, src, None, [n for n in base[src] if n not in alias]))
+        for o in optional:
+            if o not in kw:
+                continue
+            kwo = {k: v for k, v in kw.items() if k != o}
+            for src in sources:
+                if src == o:
+                    continue
+                r, exc = _try(lambda: moved(kwo, src))
+                extra = [n for n in (r or ([], []))[0] if n not in base[src]]
+                if extra:
+                    found.append((cls, src, o, extra))
+    return found
+
+
+def gen_derived_default_cases(rng, found, full):
+    """tracking cases for every discovered (class, source, omitted argument): every tracking method x beam type x every combination
+    of the Literal flags, the omitted argument at its DEFAULT (differentiated w.r.t. the source; also at a source value of exactly 0)
+    and given explicitly (w.r.t. the source and w.r.t. the explicit argument); alone or behind a drift inside a Segment"""
+    import itertools
+    cases = []
+    for (cls, src, o, moved) in found:
+        _, flags = ctor_info(cls)
+        names = sorted(flags)
+        combos = list(itertools.product(*[flags[n] for n in names])) or [()]
+        for method in methods_of(cls):
+            for btype in ("particle", "parameter"):
+                if btype == "parameter" and (method == "bmadx" or cls == "SpaceChargeKick"):
+                    continue
+                for combo in combos:
+                    variants = ["default"] + (["explicit"] if o else [])
+                    if o and (full or rng.random() < 0.5):
+                        variants.append("default_source_zero")
+                    for variant in variants:
+                        kw = live_kw(rng, cls, method)
+                        kw.update(dict(zip(names, combo)))
+                        wrt_p = src
+                        if variant.startswith("default") and o:
+                            kw.pop(o, None)
+                        if variant == "default_source_zero":
+                            kw[src] = 0.0
+                        if variant == "explicit" and rng.random() < 0.5:
+                            wrt_p = o
+                        seg = rng.random() < 0.4
+                        lat = [{"cls": cls, "kw": kw}]
+                        if seg:
+                            lat.insert(0, {"cls": "Drift", "kw": dict(length=0.5, tracking_method="cheetah")})
+                        cases.append({"lattice": lat, "beam": gen_beam(rng, btype, energy=rng.choice([2e7, 1e8])),
+                                      "wrt": ["elem", len(lat) - 1, wrt_p, None], "segment": seg, "zero_point": variant == "default_source_zero",
+                                      "forced": "derived_default",
+                                      "derived": {"cls": cls, "source": src, "left_at_default": o if variant.startswith("default") else None,
+                                                  "stored": moved, "method": method, "flags": dict(zip(names, combo)), "variant": variant}})
+    return cases
+
+
+def gen_si_beam_cases(rng, n):
+    """beams given in SI coordinates (ParticleBeam.from_xyz_pxpypz, the constructor SpaceChargeKick itself uses on the way back):
+    gradient of the outgoing beam w.r.t. each SI coordinate column and the reference energy, alone (empty lattice: the constructor
+    itself) and through 1-2 elements"""
+    cases = []
+    for k in range(n):
+        b = gen_beam(rng, "particle", energy=rng.choice([5e6, 2e7, 1e8]))
+        for r_ in b["particles"]:
+            for i in (1, 3):
+                if r_[i] == 0.0:
+                    r_[i] = 1.3e-4
+        real, exc = _try(lambda: build_beam(b).to_xyz_pxpypz().tolist())
+        if exc is not None:
+            continue
+        si = dict(b, particles=real, from_si=True)
+        lat = []
+        for _k in range(rng.choice([0, 1, 1, 2])):
+            cls = rng.choice(["Drift", "Quadrupole", "HorizontalCorrector", "Dipole", "SpaceChargeKick"])
+            lat.append({"cls": cls, "kw": gen_kw(rng, cls, rng.choice(methods_of(cls)), False)})
+        col = k % 7
+        wrt = ["beam", "energy"] if col == 6 else ["beam", "particles", rng.randrange(len(real)), col]
+        cases.append({"lattice": lat, "beam": si, "wrt": wrt, "segment": bool(lat) and rng.random() < 0.5, "zero_point": False, "forced": "si_beam"})
+    return cases
+
+
 def gen_segment_cases(rng, n):
     cases = []
     for _ in range(n):
@@ -883,6 +1039,15 @@ def run_oracle(run, cases):
         if case.get("degenerate"):
             run.count("degenerate_beam_" + case["degenerate"])
             run.count("degenerate_through_" + case["through"])
+        if case.get("forced") == "derived_default":
+            d = case["derived"]
+            key = f"{d['cls']}.{d['source']}_{'default_' + d['left_at_default'] if d['left_at_default'] else ('explicit' if d['variant'] == 'explicit' else 'stored_' + '+'.join(d['stored']))}_{d['method']}"
+            run.count("derived_default_cases")
+            run.count("derived_" + key)
+            if res.get("n_dependent", 0) > 0:
+                run.count("derived_default_cases_outputs_depend_on_source")
+        if case.get("forced") == "si_beam":
+            run.count("beam_from_si_coordinates_cases")
         if case.get("forced") == "fringe_integral_exit":
             run.count("fringe_integral_exit_forced_cases")
             if res.get("n_dependent", 0) > 0:
@@ -1354,7 +1519,7 @@ def replay_dict(case, res, extra=None):
     d = {"kind": "autograd_vs_finite_differences", "case": {k: case[k] for k in ("lattice", "beam", "wrt", "segment")},
          "mismatches": res["bad"][:6], "n_mismatches": len(res["bad"]),
          **({"not_a_known_finding_because": res["not_known_because"]} if res.get("not_known_because") else {}),
-         **({k: case[k] for k in ("degenerate", "through") if k in case}),
+         **({k: case[k] for k in ("degenerate", "through", "derived") if k in case}),
          "relation": "torch.autograd.grad(outgoing quantity, parameter) == central finite difference (Richardson), finite and not None"}
     if extra:
         d.update(extra)
@@ -1400,7 +1565,11 @@ def main(tier, replay=None):
                        "beam parameters; degenerate beams (all-zero reference particle, px = py = 0, x = y = 0, zero-divergence beam, one "
                        "coordinate exactly 0 for all particles, duplicate particles; ParameterBeam with zero mean, zero cov row, diagonal "
                        "or zero cov) behind an upstream element with a live parameter for every class x tracking method, differentiated "
-                       "w.r.t. the upstream parameter and the incoming beam; all outgoing mu/sigma/cov/particle coordinates/energy; "
+                       "w.r.t. the upstream parameter and the incoming beam; constructor arguments that feed other stored quantities "
+                       "(discovered per run: Dipole/RBend gap -> gap_exit, fringe_integral -> fringe_integral_exit, RBend angle / rbend_e -> "
+                       "dipole_e) differentiated w.r.t. the source for every tracking method x beam type x fringe_at, the derived argument "
+                       "at its default (also source = 0) and explicit; beams built from SI coordinates (from_xyz_pxpypz) w.r.t. every "
+                       "column; all outgoing mu/sigma/cov/particle coordinates/energy; "
                        "autograd vs Richardson-extrapolated central differences. A failure is a known finding only if point, observed "
                        "value (0 / None / NaN / F64 band / F63 cut-graph value) and attribution (passes off the exact-zero point) all "
                        "match. Non-trivial = at least one outgoing quantity depends on the parameter; distinct by full case content."
@@ -1418,6 +1587,12 @@ def main(tier, replay=None):
         + gen_beam_param_cases(run.rng, 400 if thorough else 30) + gen_degenerate_cases(run.rng, 12 if thorough else 2)
     for _ in range(4 if thorough else 1):
         cases += gen_fringe_exit_cases(run.rng)
+    cases += gen_si_beam_cases(run.rng, 140 if thorough else 14)
+    derived, exc = _try(lambda: discover_derived(run.rng))
+    run.cov["derived_arguments_discovered"] = [{"cls": c, "source": s_, "left_at_default": o, "stored_quantities_that_follow": m}
+                                               for (c, s_, o, m) in (derived or [])] if exc is None else "discovery raised: " + exc
+    for _ in range(3 if thorough else 1):
+        cases += gen_derived_default_cases(run.rng, derived or [], thorough)
     viol, known = run_oracle(run, cases)
     # failing inputs around a broken correspondence point
     if broken and not viol:
